@@ -225,20 +225,30 @@ def compare(ctx, rule, label, cname, out, negative, want, path, stats, concrete=
         if concrete is not None:
             lits = sorted({b[2] for b in list(got) + list(want) if is_lit(b)})
             asg = witness_assignment(got, want, lits)
+            # candidates: the assignment read off the differing bit, then the corners of the cell (a path of the enumeration holds on part of
+            # the cell only; the corners are where threshold tests change)
+            cands = [asg, dict(asg, **{'*': 1}), {'*': 1}, {'*': 0}]     # '*' = value of every literal of the cell that is not named
+            confirmed = False
             try:
-                cargs, cdesc, cexp, crun = concrete(asg)
-                o2 = crun(cargs)
-                r2 = result_int(o2.value) if o2.kind == 'return' else None
-                if r2 is not None and r2.is_const():
-                    if r2.uval() == cexp & mask(r2.bits):
-                        # the concrete run agrees with the specification: the symbolic comparison is not trusted, no alarm
-                        ctx.undecided.setdefault('rounding_inconsistent', []).append('%s %s' % (label, cname))
-                        return 'undecided'
-                    wit = '; e.g. input %s gives %#x, the correctly rounded result is %#x' % (cdesc, r2.uval(), cexp & mask(r2.bits))
-                elif o2.kind != 'return':
-                    wit = '; e.g. input %s: %s %s' % (cdesc, o2.kind, o2.value)
+                for cand in cands:
+                    cargs, cdesc, cexp, crun = concrete(cand)
+                    o2 = crun(cargs)
+                    r2 = result_int(o2.value) if o2.kind == 'return' else None
+                    if r2 is not None and r2.is_const():
+                        if r2.uval() != cexp & mask(r2.bits):
+                            wit = '; e.g. input %s gives %#x, the correctly rounded result is %#x' % (cdesc, r2.uval(), cexp & mask(r2.bits))
+                            confirmed = True
+                            break
+                    elif o2.kind in ('panic', 'budget'):
+                        wit = '; e.g. input %s: %s %s' % (cdesc, o2.kind, o2.value)
+                        confirmed = True
+                        break
             except Exception as ex:    # witness construction is best effort
-                wit = ''
+                confirmed = False
+            if not confirmed:
+                # no concrete input of the cell reproduces the difference: the symbolic comparison is not trusted, no alarm
+                ctx.undecided.setdefault('rounding_inconsistent', []).append('%s %s' % (label, cname))
+                return 'undecided'
         f = ctx.finding(rule, label, 'rounding',
                         'on rounding cell %s the result differs from the correctly rounded encoding at bit positions (msb=0) %s: got %s, specification %s%s'
                         % (cname, diff[:8], fmt_bits(got), fmt_bits(want), wit), {'function': path, 'cells': []})
@@ -251,7 +261,19 @@ def compare(ctx, rule, label, cname, out, negative, want, path, stats, concrete=
 
 
 def fmt_bits(bits):
-    return ' '.join(str(b) if not is_lit(b) else (('m%d' if not b[3] else '~m%d') % b[2]) for b in bits).replace('0 0 0 0', '0000').replace('1 1 1 1', '1111')
+    out = []
+    run = ''
+    for b in bits:
+        if is_lit(b):
+            if run:
+                out.append(run)
+                run = ''
+            out.append(('m%d' if not b[3] else '~m%d') % b[2])
+        else:
+            run += str(b)
+    if run:
+        out.append(run)
+    return ' '.join(out)
 
 
 def decide(ctx, I, rule, label, cname, path, mkargs, gargs, negative, want, concrete, stats, sub_cells=None):
@@ -331,7 +353,7 @@ def check_float_to_posit(ctx, prog, rule, label, path, fmt, pty, full, gargs=Non
         def concrete(asg):
             u = 0
             for i, b in enumerate(bits):
-                u |= (asg.get(b[2], 0) if is_lit(b) else b) << i
+                u |= (asg.get(b[2], asg.get('*', 0)) if is_lit(b) else b) << i
             v = fmt.decode(u)
             return [AFloat(fmt.bits, AInt.const(fmt.bits, False, u))], '%#x (%s)' % (u, float(v)), P.encode(v), lambda a: I.run(path, a, gargs or {})
         return concrete
@@ -384,7 +406,7 @@ def check_posit_to_posit(ctx, prog, rule, label, path, src, dst, full, gargs=Non
         def concrete(asg):
             u = 0
             for b in bits:
-                u = (u << 1) | (asg.get(b[2], 0) if is_lit(b) else b)
+                u = (u << 1) | (asg.get(b[2], asg.get('*', 0)) if is_lit(b) else b)
             if negative:
                 u = (-u) & mask(src.bits)
             v = PS.decode(u)
@@ -406,6 +428,144 @@ def check_posit_to_posit(ctx, prog, rule, label, path, src, dst, full, gargs=Non
                 yield sub, (lambda b2=b2: [posit_input(src, b2, negative, src_tykey)]), [0] + subst(want, a2), mkc(b2, negative)
         decide(ctx, I, rule, label, cname, path, (lambda bits=bits, negative=negative: [posit_input(src, bits, negative, src_tykey)]),
                gargs or {}, negative, [0] + want, mkc(bits, negative), stats, subs)
+    for k_, v in stats.items():
+        ctx.count('rounding_%s' % k_, v)
+    return stats
+
+
+# ------------------------------------------------------------------------------------------------ integers
+
+def int_input(bits, signed, msb_first, negative):
+    y = AInt(bits, False, None, None, 0, 0, sym=list(reversed(msb_first)))
+    ys = aval.cast_int(y, bits, signed)
+    if negative:
+        ys, _ = aval.neg(ys)
+    return ys
+
+
+def check_int_to_posit(ctx, prog, rule, label, path, ibits, signed, pty, full, gargs=None, seed=1):
+    """every non-zero integer of the type: cells (sign, position L of the leading one, rounding case); bits below L symbolic"""
+    import collections
+    I = Interp(prog, max_steps=200000)
+    stats = collections.Counter()
+    rng = random.Random(seed)
+    P = pty.posit
+    nk = pty.bits - 1
+
+    def mkc(bits, negative):
+        def concrete(asg):
+            u = 0
+            for b in bits:
+                u = (u << 1) | (asg.get(b[2], asg.get('*', 0)) if is_lit(b) else b)
+            v = -u if negative else u
+            return [AInt.const(ibits, signed, v)], '%d' % v, P.encode(Fraction(v)), lambda a: I.run(path, a, gargs or {})
+        return concrete
+    for negative in ((False, True) if signed else (False,)):
+        top = ibits - 1 if (negative or not signed) else ibits - 2
+        for L in range(0, top + 1):
+            lits = [lit(L - 1 - i) for i in range(L)]
+            if negative and L == ibits - 1:
+                lits = [0] * L          # only MIN has its leading one there
+            B = encoding_string(pty.es, L, lits)
+            for asg, want, cname in rounding_cases(B, nk, full):
+                if want is None:
+                    continue
+                want = clamp_const(want, nk)
+                bits = [0] * (ibits - 1 - L) + [1] + subst(lits, asg)
+                cn = '%s L=%d %s' % ('-' if negative else '+', L, cname)
+                fa = {}
+                u = 0
+                for b in bits:
+                    if is_lit(b):
+                        fa[b[2]] = rng.getrandbits(1)
+                    u = (u << 1) | (fa[b[2]] if is_lit(b) else b)
+                assert P.encode(Fraction(u)) == instantiate(want, fa), ('oracle mismatch', label, cn)
+
+                def subs(bits=bits, want=want, negative=negative):
+                    for a2, sub in refine_cells(list(reversed(bits)), want):
+                        b2 = subst(bits, a2)
+                        yield sub, (lambda b2=b2: [int_input(ibits, signed, b2, negative)]), [0] + subst(want, a2), mkc(b2, negative)
+                decide(ctx, I, rule, label, cn, path, (lambda bits=bits, negative=negative: [int_input(ibits, signed, bits, negative)]),
+                       gargs or {}, negative, [0] + want, mkc(bits, negative), stats, subs)
+    for k_, v in stats.items():
+        ctx.count('rounding_%s' % k_, v)
+    return stats
+
+
+def check_posit_to_int(ctx, prog, rule, label, path, pty, ibits, signed, full, gargs=None, seed=1):
+    """every non-zero real posit: cells (sign, regime, exponent, rounding case at the units position); result = nearest integer, ties
+    to even, clamped to the integer type"""
+    import collections
+    from rules_routing import regime_cells
+    I = Interp(prog, max_steps=200000)
+    stats = collections.Counter()
+    rng = random.Random(seed)
+    P = pty.posit
+    lo = -(1 << (ibits - 1)) if signed else 0
+    hi = (1 << (ibits - 1)) - 1 if signed else (1 << ibits) - 1
+
+    def mkc(bits, negative):
+        def concrete(asg):
+            u = 0
+            for b in bits:
+                u = (u << 1) | (asg.get(b[2], asg.get('*', 0)) if is_lit(b) else b)
+            if negative:
+                u = (-u) & mask(pty.bits)
+            v = P.decode(u)
+            sv = u - (1 << pty.bits) if u >> (pty.bits - 1) else u
+            return ([AAgg(pty.tykey, [AInt.const(pty.bits, True, sv)])], '%#x (%s)' % (u, float(v)), S.to_int_spec(v, lo, hi) & mask(ibits),
+                    lambda a: I.run(path, a, gargs or {}))
+        return concrete
+    for negative in (False, True):
+        for k, e, fl, known in regime_cells(pty.bits, pty.es):
+            scale = k * (1 << pty.es) + e
+            lits = [lit(fl - 1 - i) for i in range(fl)]
+            if scale >= 0:
+                B = [1] + lits + [0] * max(0, scale - fl)
+                nk = scale + 1
+            else:
+                B = [0] + [0] * (-scale - 1) + [1] + lits
+                nk = 1
+            for asg, want, cname in rounding_cases(B, nk, full):
+                if want is None:
+                    continue
+                bits = [0] + list(known) + subst(lits, asg)
+                cn = '%s k=%d e=%d %s' % ('-' if negative else '+', k, e, cname)
+                # clamp to the integer type
+                wlen = len(want)
+                is_const = all(not is_lit(b) for b in want)
+                neg_result = negative
+                if negative and not signed:
+                    want_bits, neg_result = [0] * ibits, False
+                elif is_const:
+                    m_ = instantiate(want, {})
+                    v = max(lo, min(hi, -m_ if negative else m_))
+                    want_bits, neg_result = [((abs(v)) >> (ibits - 1 - i)) & 1 for i in range(ibits)], v < 0
+                    if v == lo and signed and v < 0:
+                        want_bits = [1] + [0] * (ibits - 1)
+                else:
+                    limit = ibits - 1 if signed else ibits     # magnitudes below 2^limit fit; a negative magnitude >= 2^(ibits-1) gives MIN either way
+                    if wlen > limit:
+                        v = lo if negative else hi
+                        want_bits = [((abs(v)) >> (ibits - 1 - i)) & 1 for i in range(ibits)]
+                    else:
+                        want_bits = [0] * (ibits - wlen) + list(want)
+                fa = {}
+                u = 0
+                for b in bits:
+                    if is_lit(b):
+                        fa[b[2]] = rng.getrandbits(1)
+                    u = (u << 1) | (fa[b[2]] if is_lit(b) else b)
+                val = P.decode(u)
+                expect = S.to_int_spec(-val if negative else val, lo, hi)
+                assert abs(expect) == instantiate(want_bits, fa) or (expect & mask(ibits)) == instantiate(want_bits, fa), ('oracle mismatch', label, cn, expect, instantiate(want_bits, fa))
+
+                def subs(bits=bits, want_bits=want_bits, negative=negative, neg_result=neg_result):
+                    for a2, sub in refine_cells(list(reversed(bits)), want_bits):
+                        b2 = subst(bits, a2)
+                        yield sub, (lambda b2=b2: [posit_input(pty, b2, negative)]), subst(want_bits, a2), mkc(b2, negative)
+                decide(ctx, I, rule, label, cn, path, (lambda bits=bits, negative=negative: [posit_input(pty, bits, negative)]),
+                       gargs or {}, neg_result, want_bits, mkc(bits, negative), stats, subs)
     for k_, v in stats.items():
         ctx.count('rounding_%s' % k_, v)
     return stats
